@@ -174,6 +174,12 @@ DecodeWire2A == \E dst \in Reg, src \in Full : \E w1 \in MutTagged(Tagged(reg[sr
               w1[1] = "tag" /\ w1[2] = TagEnvelope /\ \E w \in MutTagged(w1) :
               Call("decode_wire", dst, <<w>>, DecodeTagged(w))
 
+(* ---- decoration: a holder annotates one of the assertions of an envelope -----------------------*)
+DecorateA == \E dst \in Reg, src \in Full : \E a \in Assertions(reg[src]) :
+              /\ IsAssn(Subject(a))
+              /\ Call("decorate", dst, <<src, Dg(a)>>,
+                      AddAssertionEnv(RemoveAssertion(reg[src], a), AddAssertion(a, KV(KvNote), Str("d"))))
+
 (* ---- salt -------------------------------------------------------------------------*)
 AddSaltA == \E dst \in Reg, src \in Full :
               Call("add_salt", dst, <<src>>, Ok(AddSaltInstance(reg[src], <<FreshId, 1>>)))
